@@ -134,9 +134,8 @@ def all_deps_visited(ctx):
 @rule("C09.OUTPUT-OF-BUILD-ONLY", ["C09", "C13"], """`X.output` is accepted only when X is a build target; any other kind is an error""", "K1", floor=1)
 def output_of_build_only(ctx):
     b = resolver(ctx)
-    ext = [(bb, t) for bb, t in b.calls() if callee_base(t).endswith("Target::extend_input") or "extend_input" in callee_base(t)]
     # (a wrapper around it - `extend_input_with_output_of(&producer)`, whose code is in view here - is judged by the call it contains)
-    ext = [(bb, t) for bb, t in ext if not any("extend_input" in x for x in ctx.f.cg.reach([callee_base(t)], cross_spawn=False) - {callee_base(t)})]
+    ext = [(bb, t) for bb, t in b.calls() if callee_base(t) in extend_input_fns(ctx.f)[0]]
     ctx.need(ext, "call extending the consumer's input")
     n_ok = 0
     for bb, t in ext:
@@ -649,7 +648,7 @@ def justified_panic_site(ctx, b, bb, kind, detail, roles):
         return "the regex guarantees at most one `::` in the captured name, so the parser cannot fail"
     if kind == "index" and re.search(r"HashMap<[\w:]*TargetId, [\w:]*Target> as std::ops::Index", detail) and in_resolver:
         return "the producer was resolved by the preceding loop over the dependencies (which include it)"
-    if kind == "unwrap" and "Result::<(), anyhow::Error>::unwrap" in detail and any("extend_input" in c for c in atom_callres(at0)):
+    if kind == "unwrap" and "Result::<(), anyhow::Error>::unwrap" in detail and any(is_extend_input(b.facts, c) for c in atom_callres(at0)):
         # only justified inside the Build branch of the match on the producer
         be = [e for e in b.edges if e.label and e.label[0] == "variant" and e.label[2] == ("Build",) and bb in b.dominated_by_edge(e)]
         if be:
